@@ -19,10 +19,11 @@
 #endif
 extern size_t gz_i;          /* ghost: index of a transition (by time) */
 extern size_t gz_j;          /* ghost: index of a transition (by civil time) */
+extern size_t gz_k;          /* ghost: index of a transition type */
 extern size_t gz_hint;       /* ghost: the value the relaxed load of a hint returns (arbitrary) */
 
-#define EPOCHSEC ((Z)719528 * 86400)
-#define P400 ((Z)146097 * 86400)
+#define EPOCHSEC ((Z)719528 * 86400)   /* second ordinal of 1970-01-01T00:00:00 */
+#define P400 ((Z)146097 * 86400)       /* seconds in 400 Gregorian years */
 #define NTR(z) ((z)->transitions_.size)
 #define TR(z, i) ((z)->transitions_.data[i])
 #define NTY(z) ((z)->transition_types_.size)
@@ -38,25 +39,30 @@ extern size_t gz_hint;       /* ghost: the value the relaxed load of a hint retu
 #define TYOK(z, k) ((k) < NTY(z) && -86400 < TY(z, k).utc_offset && TY(z, k).utc_offset < 86400 && TY(z, k).abbr_index <= (z)->abbreviations_.size)
 /* type in force just before transition i */
 #define PREVTY(z, i) ((i) == 0 ? (size_t)DEFTY(z) : (size_t)TR(z, (i) - 1).type_index)
-/* WF at index i: its type and the previous type are sane; civil_sec / prev_civil_sec are the local readings */
+/* WF at index i: its type and the previous type are sane; civil_sec / prev_civil_sec are the local readings of unix_time */
 #define WFI(z, i) ((i) < NTR(z) && TYOK(z, TR(z, i).type_index) && TYOK(z, PREVTY(z, i)) && \
-  VALID_F(TR(z, i).civil_sec) && VALID_F(TR(z, i).prev_civil_sec) && \
-  SECORD_F(TR(z, i).civil_sec) == (Z)TR(z, i).unix_time + TY(z, TR(z, i).type_index).utc_offset + EPOCHSEC && \
-  SECORD_F(TR(z, i).prev_civil_sec) == (Z)TR(z, i).unix_time - 1 + TY(z, PREVTY(z, i)).utc_offset + EPOCHSEC)
+  OVALID(TR(z, i).civil_sec) && OVALID(TR(z, i).prev_civil_sec) && \
+  OSEC(TR(z, i).civil_sec) == (Z)TR(z, i).unix_time + TY(z, TR(z, i).type_index).utc_offset + EPOCHSEC && \
+  OSEC(TR(z, i).prev_civil_sec) == (Z)TR(z, i).unix_time - 1 + TY(z, PREVTY(z, i)).utc_offset + EPOCHSEC)
 /* t lies in the half-open interval of transition i */
 #define TBRACKET(z, i, t) ((i) + 1 < NTR(z) && TR(z, i).unix_time <= (t) && (t) < TR(z, (i) + 1).unix_time)
-/* the local reading of instant t in type k */
+/* r is the local reading of instant t in transition type k */
 #define LOCAL_IS(z, r, t, k) ((r).offset == TY(z, k).utc_offset && (r).is_dst == TY(z, k).is_dst && (r).abbr == ABBR(z, k) && \
-  VALID_F((r).cs) && SECORD_F((r).cs) == (Z)(t) + TY(z, k).utc_offset + EPOCHSEC)
+  OVALID((r).cs) && OSEC((r).cs) == (Z)(t) + TY(z, k).utc_offset + EPOCHSEC)
+
+/* the epoch, and why every int64 instant (shifted by less than a day) has a representable civil second */
+#define lemma_epoch_REQ() (1)
+#define lemma_epoch_ENS() (VALIDD(1970, 1, 1) && DAYORD(1970, 1, 1) == 719528)
+#define lemma_secrepr_REQ(u) (-((Z)1 << 64) < (Z)(u) && (Z)(u) < ((Z)1 << 64))
+#define lemma_secrepr_ENS(u) (REPR_second(u))
 
 /* ---- trusted library contracts (R14) ---- */
 /* std::upper_bound on a table sorted by unix_time (Load rejects unsorted tables) returns the end of the
  * unique bracket; stated for the ghost index: if gz_i brackets the target, that is the answer */
 const Transition* valg_upper_bound_Transition_ByUnixTime(const Transition* first, const Transition* last, const Transition* value)
 __CPROVER_requires(1)
-__CPROVER_ensures(__CPROVER_same_object(RV, first) && first <= RV && RV <= last)
-__CPROVER_ensures((first + gz_i + 1 <= last && first[gz_i].unix_time <= value->unix_time && (first + gz_i + 1 == last || value->unix_time < first[gz_i + 1].unix_time)) ? RV == first + gz_i + 1 : 1)
-__CPROVER_ensures((first < last && value->unix_time < first[0].unix_time) ? RV == first : 1)
+__CPROVER_ensures(__CPROVER_same_object(RV, first) && __CPROVER_POINTER_OFFSET(first) <= __CPROVER_POINTER_OFFSET(RV) && __CPROVER_POINTER_OFFSET(RV) <= __CPROVER_POINTER_OFFSET(last))
+__CPROVER_ensures((first[gz_i].unix_time <= value->unix_time && value->unix_time < first[gz_i + 1].unix_time) ? RV == first + gz_i + 1 : 1)
 __CPROVER_assigns();
 
 size_t vatomic_load_hint(void)
@@ -69,21 +75,38 @@ __CPROVER_ensures(1)
 __CPROVER_assigns();
 
 /* ---- kernel ---- */
+/* index of an element pointer inside the tables */
+#define TRIDX(z, p) ((size_t)((p) - (z)->transitions_.data))
+#define TYIDX(z, p) ((size_t)((p) - (z)->transition_types_.data))
+#define IN_TR(z, p) (__CPROVER_same_object(p, (z)->transitions_.data) && __CPROVER_POINTER_OFFSET(p) % sizeof(Transition) == 0 && TRIDX(z, p) < NTR(z))
+#define IN_TY(z, p) (__CPROVER_same_object(p, (z)->transition_types_.data) && __CPROVER_POINTER_OFFSET(p) % sizeof(TransitionType) == 0 && TYIDX(z, p) < NTY(z))
+
 absolute_lookup LocalTime_TransitionType(const TimeZoneInfo* self, int_fast64_t unix_time, const TransitionType* tt)
-__CPROVER_requires(ZSHAPE(self) && gz_i < NTY(self) && tt == &TY(self, gz_i) && TYOK(self, gz_i))
-__CPROVER_ensures(LOCAL_IS(self, RV, unix_time, gz_i))
+__CPROVER_requires(ZSHAPE(self) && IN_TY(self, tt) && TYOK(self, TYIDX(self, tt)))
+__CPROVER_ensures(LOCAL_IS(self, RV, unix_time, TYIDX(self, tt)))
 __CPROVER_assigns();
 
 absolute_lookup LocalTime_Transition(const TimeZoneInfo* self, int_fast64_t unix_time, const Transition* tr)
-__CPROVER_requires(ZSHAPE(self) && gz_i < NTR(self) && tr == &TR(self, gz_i) && WFI(self, gz_i))
-__CPROVER_requires(FITS64((Z)unix_time - TR(self, gz_i).unix_time))
-__CPROVER_ensures(LOCAL_IS(self, RV, unix_time, TR(self, gz_i).type_index))
+__CPROVER_requires(ZSHAPE(self) && IN_TR(self, tr) && WFI(self, TRIDX(self, tr)))
+__CPROVER_requires(FITS64((Z)unix_time - tr->unix_time))
+__CPROVER_ensures(LOCAL_IS(self, RV, unix_time, tr->type_index))
 __CPROVER_assigns();
 
-fields YearShift(fields cs, year_t shift)
-__CPROVER_requires(VALID_F(cs) && FITS64((Z)cs.y + shift))
-__CPROVER_ensures((Z)RV.y == (Z)cs.y + shift && RV.m == cs.m && RV.hh == cs.hh && RV.mm == cs.mm && RV.ss == cs.ss)
-__CPROVER_ensures(VALID_F(RV) && (FM((Z)shift, 400) == 0 ? RV.d == cs.d : 1))
+/* C01 (kernel): the reading reported for instant tp is that of the latest transition at or before tp
+ * (the default type before the first one).  gz_i is an arbitrary ghost index: whenever it brackets tp, the
+ * answer is the reading in transition gz_i's type - for every index, hence for THE bracketing index.
+ * gz_hint is whatever the relaxed load of the hint returns: the postcondition does not mention it (C14). */
+#define BT_MIDDLE(z, t) (TR(z, 0).unix_time <= (t) && (t) < TR(z, NTR(z) - 1).unix_time)
+absolute_lookup BreakTime(const TimeZoneInfo* self, time_point_s tp)
+__CPROVER_requires(ZSHAPE(self) && !self->extended_)
+__CPROVER_requires(WFI(self, 0) && WFI(self, NTR(self) - 1) && TYOK(self, DEFTY(self)))
+__CPROVER_requires(TR(self, 0).unix_time < 0 && TR(self, NTR(self) - 1).unix_time >= 0)
+__CPROVER_requires(BT_MIDDLE(self, tp) ? (TBRACKET(self, gz_i, tp) && WFI(self, gz_i) && FITS64((Z)tp - TR(self, gz_i).unix_time)) : 1)
+/* uniqueness of the bracket (instance of sortedness): a hint that brackets tp is the same bracket */
+__CPROVER_requires((0 < gz_hint && gz_hint < NTR(self) && TR(self, gz_hint - 1).unix_time <= tp && tp < TR(self, gz_hint).unix_time) ? gz_hint - 1 == gz_i : 1)
+__CPROVER_ensures(tp < TR(self, 0).unix_time ? LOCAL_IS(self, RV, tp, DEFTY(self)) :
+                  (tp >= TR(self, NTR(self) - 1).unix_time ? LOCAL_IS(self, RV, tp, TR(self, NTR(self) - 1).type_index) :
+                   LOCAL_IS(self, RV, tp, TR(self, gz_i).type_index)))
 __CPROVER_assigns();
 
 #pragma CPROVER check pop
